@@ -187,6 +187,49 @@ pub fn run(ctx: &Ctx, rep: &mut Report) {
             }
         }
     }
+    // the odd but accepted line "fragment 1 of 0" (no sequence id) after a delivered, failed or
+    // abandoned group: when it is decoded, the variant follows the six type bits of its own payload,
+    // not anything left over from the group
+    for (yi, &ych) in crate::armor::ALPHABET.iter().enumerate() {
+        if !ctx.mine(item) {
+            item += 1;
+            continue;
+        }
+        item += 1;
+        for zb in gen::BRANCHES.iter().filter(|b| b.len <= 424) {
+            let (zchars, zfill) = gen::gen_message(zb, &mut r).to_armor();
+            let mut g1 = vec![ych];
+            g1.extend((0..r.usize(0, 30)).map(|_| *r.pick(crate::armor::ALPHABET)));
+            let g2: Vec<u8> = (0..r.usize(1, 30)).map(|_| *r.pick(crate::armor::ALPHABET)).collect();
+            let id = Some(((yi + zb.t as usize) % 10) as u8);
+            let kind = (yi + zb.len) % 3;
+            let mut hist: Vec<(Vec<u8>, bool)> = vec![(nmea_ref::mk(2, 1, id, &g1, 0), kind == 1)];
+            if kind != 2 {
+                // delivered (decode off) or delivery attempted with decoding (fails for most types)
+                hist.push((nmea_ref::mk(2, 2, id, &g2, 0), kind == 1));
+            }
+            hist.push((nmea_ref::mk(0, 1, None, &zchars, zfill), true));
+            let mut p = Parser::new();
+            let mut last = None;
+            for (l, d) in &hist {
+                last = Some(p.parse(l, *d));
+            }
+            rep.eval();
+            rep.class(format!("one-of-zero-after-group|t{}|{}", zb.t, ["delivered", "decode-attempted", "abandoned"][kind]));
+            match last {
+                Some(Call::Panic(pi)) => rep.violation(PID, format!("panic@{}", pi.loc), pi.msg.clone(), || mon::replay_history(&hist, "one-of-zero-after-group")),
+                Some(Call::Done(Outcome::Complete(s))) => {
+                    let v = s.message.as_ref().map(|m| m.variant);
+                    // the line is not a continuation of anything (no group is open for "no id"), so
+                    // what is decoded is this line's payload: the variant follows its six type bits
+                    if v.is_some() && v != variant_of(zb.t) {
+                        rep.violation(PID, format!("history-type-{}-wrong-variant", zb.t), format!("'1 of 0' line whose payload announces type {} decoded as {:?} after a group starting with {:?} (sentence data {} its own payload)", zb.t, v, ych as char, if s.data == zchars { "is" } else { "is not" }), || mon::replay_history(&hist, "one-of-zero-after-group"));
+                    }
+                }
+                _ => {}
+            }
+        }
+    }
     // payloads of 11 000 .. 350 000 characters (1.4 million in the thorough tier) under every type
     // value (std / alloc only: the no-allocator build cannot hold them): the variant is still
     // decided by the first six bits. The lengths lie beyond 2^16 bits, 2^16 bytes, 2^16 groups of
